@@ -71,3 +71,40 @@ _tok('shape4', [
 
 def tok_names(tag=None, exclude=()):
     return [k for k, v in TOK.items() if (tag is None or tag in v['tags']) and not (set(exclude) & v['tags'])]
+
+
+# ---------------------------------------------------------------------------------------------------------------------
+# Text-level grammars: dict(g=Grammar, tags). Terminals carry patterns; the alphabet partition is derived from the built parser.
+TXT = {}
+
+
+def _txt(name, rules, terms, ignore=(), tags=()):
+    TXT[name] = dict(g=Grammar(rules, terms=terms, ignore=ignore, name=name), tags=set(tags))
+
+
+# words, numbers, newlines (filtered), brackets, comments: positions with newlines inside kept, filtered and ignored terminals
+_txt('lines', [
+    Rule('start', [[Star(Grp([N('item')], [T('_NL')]))]]),
+    Rule('?item', [[T('WORD')], [T('NUM')], [N('grp')]]),
+    Rule('grp', [[L('('), Star(Grp([N('item')], [T('_NL')])), L(')')]]),
+], [Term('WORD', ('re', '[a-z]+')), Term('NUM', ('re', '[0-9]+')), Term('_NL', ('re', r'\n+')),
+    Term('WS', ('re', r'[ \t]+')), Term('COMMENT', ('re', r'#[^\n]*'))], ignore=['WS', 'COMMENT'], tags={'lalr', 'unamb', 'nl'})
+
+# newline reached through \W, \D, \s, ranges, negated class, DOTALL flag - inside kept and ignored terminals
+_txt('nlvia', [
+    Rule('start', [[Star(N('x'))]]),
+    Rule('x', [[T('AW')], [T('DD')], [T('ID')], [T('Q')]]),
+], [Term('AW', ('re', r'a\W')), Term('DD', ('re', r'\D[0-9]')), Term('ID', ('re', r'[b-z]+')),
+    Term('Q', ('re', r'"[^"]*"')), Term('CTL', ('re', r'[\x00-\x20]+'))], ignore=['CTL'], tags={'lalr', 'unamb', 'nl'})
+
+_txt('dotall', [
+    Rule('start', [[Star(Grp([T('ANY2')], [T('W')], [N('p')]))]]),
+    Rule('p', [[L('<'), Opt(T('W')), L('>')]]),
+], [Term('ANY2', ('re', r'=.'), flags='s'), Term('W', ('re', r'[a-z]+')), Term('SP', ('re', r'\s'))], ignore=['SP'], tags={'lalr', 'unamb', 'nl'})
+
+# keyword vs identifier, priorities, case-insensitive literal
+_txt('kw', [
+    Rule('start', [[Star(N('s'))]]),
+    Rule('s', [[L('if'), T('NAME')], [T('NAME'), L('=')], [T('ELSE')], [T('INT')]]),
+], [Term('NAME', ('re', '[a-z]+')), Term('ELSE', ('str', 'else'), flags='i'), Term('INT', ('re', '[0-9]+')),
+    Term('WS', ('re', r'[ \n]+'))], ignore=['WS'], tags={'lalr', 'kw'})
